@@ -363,6 +363,8 @@ class Memory:
         for (p, la, lb) in phis:
             if la is None or lb is None or len(facts) > 400:
                 continue
+            if not (p.endswith(".off)") or p.endswith(".len)") or p in eng.len_syms):
+                continue  # only byte-accounting quantities (slice offsets / lengths)
             d = lb.sub(la)
             if len(d.t) > 6:
                 continue
